@@ -674,6 +674,12 @@ func ruleC10R5(r *Run) {
 			for _, st := range p.fieldAccesses("T") {
 				if st.Fn == fn && st.Field == "ctx" && st.Kind == "write" && dominates(cs.Instr, st.Instr) {
 					okCleaning = true
+					// … and it is sequenced after a locked read that found no context (or made under the write lock of the
+					// store): cleanup sets cleaning before it takes the lock to cancel and clear, so "ctx == nil seen under
+					// the lock, then cleaning == false" means cleanup has not cleared yet and will cancel what is stored now;
+					// tested before that read, cleanup can run to completion in between and the new context is never cancelled
+					after := holds(p.facts(cs.Instr), "$t.ctx", "==", "nil") || ls[cs.Instr.(ssa.Instruction)]["&$t.mu"] == 'W'
+					r.Check("(*T).Context#cleaning-after-read", cs.Instr.Pos(), after, "cleaning is tested after a locked read found t.ctx == nil", "cleaning is tested before the locked read of t.ctx: a whole cleanup (set cleaning, cancel, clear) fits between the test and the read, after which Context stores a fresh context that nobody cancels and that differs from the one other goroutines got")
 				}
 			}
 		}
@@ -743,14 +749,7 @@ func specC11() *propertySpec {
 			{"C11-R3", "no-shared-stream-state: a stream shared between test cases is re-seeded per case and does not record; its position counter, which is not reset, is only compared with other positions of the same stream; every other T gets its own stream", ruleC11R3},
 			{"C11-R5", "no-global-per-case-state: package-level variables are not written after initialisation: nothing outside the T survives from one test case to the next (shared with C15-R4)", ruleC15R4},
 			{"C11-R6", "failure-identity-survives-minimisation: a test case in which nothing failed is never presented as the failing one: the traceback that identifies a failure keeps the frame that distinguishes a deferred flag consult from a plain skip (shared with C05-R3)", ruleC05R3},
-			{"C11-R7", "presented-case-is-an-executed-one: the buffer Check treats as the falsifying test case is a pruned recording that was never executed in that form, so pruning must be replay-neutral: only groups of rejected attempts are discarded, nothing derived from discarded bits steers later draws, a failing attempt is not closed as discarded (shared with C04-R4.4/R4.5/R4.6/R4.8/R5, C03-R2)", func(r *Run) {
-				ruleC04R44(r)
-				ruleC04R45(r)
-				ruleC04R46(r)
-				ruleC04R48(r)
-				ruleC04R5(r)
-				ruleC03R2(r)
-			}},
+			{"C11-R7", "presented-case-is-an-executed-one: the buffer Check treats as the falsifying test case is a pruned recording that was never executed in that form, so pruning must be replay-neutral: only groups of rejected attempts are discarded, nothing derived from discarded bits steers later draws, a failing attempt is not closed as discarded (shared with C04-R4.4/R4.5/R4.6/R4.7/R4.8/R5, C03-R2)", rulePruneBundle},
 			{"C11-R8", "generators-carry-nothing-over: a generator outlives the test case, so a draw that stores through or hands out generator-owned storage lets one test case change what a later one draws (shared with C15-R3)", ruleC15R3},
 		},
 	}
